@@ -217,7 +217,8 @@ func handleLeafValue(nodemap map[string]interface{}, value *configapi.TypedValue
 	case configapi.ValueType_BOOL:
 		(nodemap)[pathelems[0]] = (*configapi.TypedBool)(value).Bool()
 	case configapi.ValueType_BYTES:
-		(nodemap)[pathelems[0]] = (*configapi.TypedBytes)(value).ByteArray()
+		// an empty value comes back from the store as a nil slice, which would be written as null instead of ""
+		(nodemap)[pathelems[0]] = append([]byte{}, (*configapi.TypedBytes)(value).ByteArray()...)
 	case configapi.ValueType_LEAFLIST_STRING:
 		(nodemap)[pathelems[0]] = (*configapi.TypedLeafListString)(value).List()
 	case configapi.ValueType_LEAFLIST_INT:
